@@ -37,7 +37,7 @@ pub fn def() -> PropDef {
         quick_runs: 30000,
         thorough_runs: 600_000,
         level: "exploration",
-        rule: "a live daemon; index%4: 3 = the application drops a connected daemon without wait() while the peer (idle / after k requests / mid-message) keeps its end open: daemon thread and every worker must terminate and the peer must read EOF; 0 = 1-3 shutdown-caller tasks (each calling once or twice) start after 0..40 scheduler steps while a raw peer follows a drawn plan (idle / k complete requests / stopped after b bytes of a request, b enumerated over every offset of GET_VRING_BASE by index / closed at offset b / closed with a reply pending); after they returned wait() must return Ok, the peer must read EOF and a second start() on the same listener must serve a request; 1 = no shutdown request: the peer disconnects at offset b (enumerated) or with a reply pending or sends a malformed request: wait() must return Err, the peer must read EOF after a request error; 2 = serve(): must return Ok for clean and partial-header disconnects and raise every worker's exit event; always: dropping the daemon ends all worker tasks; forced switches at the daemon-thread and shutdown hold points; hang = the scheduler's deadlock detector; non-trivial = a scheduling choice existed",
+        rule: "a live daemon; index%4: 3 = the application drops a connected daemon without wait() while the peer (idle / after k requests / mid-message) keeps its end open: daemon thread and every worker must terminate and the peer must read EOF; 0 = 1-3 shutdown-caller tasks (each calling once or twice) start after 0..40 scheduler steps, with the owner either already blocked in wait() or calling it after they returned, while a raw peer follows a drawn plan (idle / k complete requests / stopped after b bytes of a request, b enumerated over every offset of GET_VRING_BASE by index / closed at offset b / closed with a reply pending); after they returned wait() must return Ok, the peer must read EOF and a second start() on the same listener must serve a request; 1 = no shutdown request: the peer disconnects at offset b (enumerated) or with a reply pending or sends a malformed request: wait() must return Err, the peer must read EOF after a request error; 2 = serve(): must return Ok for clean and partial-header disconnects and raise every worker's exit event; always: dropping the daemon ends all worker tasks; forced switches at the daemon-thread and shutdown hold points; hang = the scheduler's deadlock detector; non-trivial = a scheduling choice existed",
         assumptions: ASSUME,
         real: REAL_D,
         stubs: STUB_D,
@@ -341,13 +341,33 @@ fn run_v<V: VringT<GM<()>> + Clone + Send + Sync + 'static>(sim: &Sim, cfg: &Run
                 }
             }));
         }
-        for c in callers {
-            sim.join(c);
-        }
-        // "a following wait": every request has returned by now
-        let r = daemon.wait();
-        if let Err(e) = &r {
-            viol("wait_err_after_shutdown", plan_key.clone(), format!("wait() returned {e} although shutdown had been requested (peer plan {plan:?})"));
+        if sim.with_w(|t| t.chance(1, 2)) {
+            // the owner is already blocked in wait() when the requests arrive. With a peer that
+            // neither disconnects nor misbehaves, the shutdown request is the only thing that
+            // can end the connection, so wait() has to report success; with the other peers
+            // either may have come first and both results are in order.
+            sim.probe("wait_concurrent_with_shutdown");
+            let r = daemon.wait();
+            let peer_harmless = matches!(plan, PeerPlan::Idle | PeerPlan::Requests(_) | PeerPlan::MidMessage(..));
+            if let (Err(e), true) = (&r, peer_harmless) {
+                viol(
+                    "wait_err_concurrent_shutdown",
+                    plan_key.clone(),
+                    format!("wait(), entered before the shutdown request, returned {e}; the peer ({plan:?}) kept the connection open, only the shutdown request can have ended it"),
+                );
+            }
+            for c in callers {
+                sim.join(c);
+            }
+        } else {
+            for c in callers {
+                sim.join(c);
+            }
+            // "a following wait": every request has returned by now
+            let r = daemon.wait();
+            if let Err(e) = &r {
+                viol("wait_err_after_shutdown", plan_key.clone(), format!("wait() returned {e} although shutdown had been requested (peer plan {plan:?})"));
+            }
         }
         sim.join(peer);
         let po = peer_out.lock().unwrap().clone();
